@@ -22,7 +22,9 @@ from harness import kit, ser
 
 NSS = ["none", "continuous", "discontinuous"]
 NEG_BUGS = ["quot_sign", "quot_shortcut_sign", "pow_exp", "table_sin", "table_cos_sign",
-            "fabs_always", "cse_drop_chain", "product_identity"]
+            "fabs_always", "cse_drop_chain", "product_identity", "leaf_fallback_zero"]
+# round 4: leaves that denote no number, carried as variables with reserved names (C10_Diff.OpaqueNames)
+OPAQUE = {"<FunctionSymbol>": "FunctionSymbol", "<NaN>": "NaN"}
 
 
 # ------------------------------------------------------------------ driving
@@ -81,6 +83,12 @@ def build_shared(j, keys, memo):
         r = p.Lookup(rec(j["a"]), j["name"])
     elif t == "CSE":
         r = p.CommonSubexpression(rec(j["a"]), j["prefix"] or None, j["scope"])
+    elif t == "CallKw":
+        from immutabledict import immutabledict
+        r = p.CallWithKwargs(rec(j["f"]), tuple(rec(c) for c in j["c"]),
+                             immutabledict({kw["name"]: rec(kw["e"]) for kw in j["kw"]}))
+    elif t == "Var" and j["name"] in OPAQUE:
+        r = getattr(p, OPAQUE[j["name"]])()
     else:
         r = ser.from_json(j)              # leaves (and kinds outside the fragment: nothing shared inside)
     if k is not None and k in keys:
@@ -96,7 +104,7 @@ def drive_case(case, extra):
     # variant 0: nothing shared (every node a new object); then the variants TLC listed
     for vi, sh in enumerate([None] + list(case.get("shs", []))):
         if sh is None:
-            e = ser.from_json(case["e"])
+            e = build_shared(case["e"], None, None)
             vobj = ser.from_json(case["v"])
         else:
             share, memo = {_canon(rep[i - 1]) for i in sh}, {}
